@@ -358,8 +358,8 @@ impl Scenario for C02 {
 
     fn budget(&self, tier: Tier) -> (u64, u64) {
         match tier {
-            Tier::Quick => (301 * 10, 150),
-            Tier::Thorough => (301 * 800, 1500),
+            Tier::Quick => (301 * 60, 150),
+            Tier::Thorough => (301 * 4000, 1500),
         }
     }
 
